@@ -251,24 +251,39 @@ def finish(prop, meta, tier, seed, results, det_res, t0, t_warm, jobs, no_eviden
         os.makedirs(os.path.join(VERIF, "replays"), exist_ok=True)
         seen = set()
         unconfirmed = []
+        tried = {}
         for v in violations:
-            if "scenario" not in v or v["class"] in seen:
+            # per violation class: replay recorded (minimised) scenarios until one reproduces in a fresh
+            # interpreter; hits that do not reproduce depended on what the worker had executed before
+            if "scenario" not in v or v["class"] in seen or tried.get(v["class"], 0) >= 4:
                 continue
-            seen.add(v["class"])
-            sc = dict(v["scenario"])
-            sc["expect"] = {"class": v["class"], "event_digest": "sha256:" + v["digest"], "detail": v["detail"],
-                            "info": v.get("info", {})}
-            name = f"{prop}-{v['digest'][:12]}.json"
-            path = os.path.join(VERIF, "replays", name)
-            with open(path, "w") as fp:
-                json.dump(sc, fp, indent=1, sort_keys=True)
-            # the replay must reproduce in a fresh interpreter before it is reported
-            p = subprocess.run([PY, "-m", "sim.replay", prop, path], cwd=VERIF, env=child_env(prop),
-                               capture_output=True, text=True, timeout=900)
+            tried[v["class"]] = tried.get(v["class"], 0) + 1
+            p = None
+            for form, dig_key in (("scenario", "digest"), ("scenario_orig", "digest_orig")):
+                if form not in v:
+                    continue
+                sc = dict(v[form])
+                # the unminimised form is replayed on its class only (its digest belongs to a process with history)
+                sc["expect"] = {"class": v["class"], "detail": v["detail"], "info": v.get("info", {})}
+                if form == "scenario":
+                    sc["expect"]["event_digest"] = "sha256:" + v[dig_key]
+                name = f"{prop}-{v[dig_key][:12]}{'' if form == 'scenario' else '-unminimised'}.json"
+                path = os.path.join(VERIF, "replays", name)
+                with open(path, "w") as fp:
+                    json.dump(sc, fp, indent=1, sort_keys=True)
+                # the replay must reproduce in a fresh interpreter before it is reported
+                p = subprocess.run([PY, "-m", "sim.replay", prop, path], cwd=VERIF, env=child_env(prop),
+                                   capture_output=True, text=True, timeout=900)
+                if p.returncode == 1 and "VIOLATION" in p.stdout:
+                    break
+            if p is None:
+                continue
             if p.returncode == 1 and "VIOLATION" in p.stdout:
                 print(f"VIOLATION property={prop} replay={path}")
                 print(f"  class={v['class']} run={v['run']} detail={v['detail'][:300]}")
                 replay_paths.append(path)
+                seen.add(v["class"])
+                unconfirmed = [u for u in unconfirmed if u[0]["class"] != v["class"]]
             else:
                 unconfirmed.append((v, p.stdout[-1500:] + p.stderr[-1500:]))
         if replay_paths:
